@@ -12,12 +12,14 @@ def build(R):
     registry_model.install(R)
     registry_model.install_getters(R)
     responder_model.install_strategies(R)
+    responder_model.install_rrset(R)
 
 
 def configure(ctx, R):
     records.configure(ctx)
     registry_model.install_generators(R)
     responder_model.install_generators(R)
+    responder_model.install_rrset_generators(R)
 
 
 NO_CONCRETE = set()
